@@ -1296,8 +1296,10 @@ static vbi_bool vbi_proxyd_token_grant( PROXY_CLNT * req )
          req->chn_state.token_state = REQ_TOKEN_GRANTED;
          break;
       case REQ_TOKEN_RELEASE:
-         /* reclaim already sent -> must re-assign token */
-         req->chn_state.token_state = REQ_TOKEN_GRANT;
+         /* reclaim already sent -> wait for the client's confirmation: in state GRANT the
+         ** token could be taken away again without the client ever being told; the
+         ** scheduler runs again when the confirmation arrives */
+         token_free = FALSE;
          break;
       case REQ_TOKEN_GRANTED:
       case REQ_TOKEN_RETURNED:
